@@ -28,6 +28,47 @@ def MintToken_guard_3 (coinMinted : Coin) (mintableAmt : Int) : Option (Bool) :=
 def MintToken_cond_4 (read_recipient_Empty : Bool) : Option (Bool) := do
   some read_recipient_Empty
 
+def EditToken_issuedAmt_1 (read_k_getTokenSupply_ctx_token_MinUnit : Int) : Option (Int) := do
+  some read_k_getTokenSupply_ctx_token_MinUnit
+
+def EditToken_precision_1 (token_Scale : Nat) : Option (Int) := do
+  let t1 ← NewIntWithDecimal (1 : Int) (token_Scale : Int)
+  some t1
+
+def EditToken_token_MaxSupply_1 (maxSupply : Nat) : Option (Nat) := do
+  some maxSupply
+
+def EditToken_token_Name_1 (name : String) : Option (String) := do
+  some name
+
+def EditToken_token_Mintable_1 (read_mintable_ToBool : Bool) : Option (Bool) := do
+  some read_mintable_ToBool
+
+/-- rejects when true: `owner.String() != token.Owner` -/
+def EditToken_guard_1 (read_owner_String : String) (token_Owner : String) : Option (Bool) := do
+  some (read_owner_String != token_Owner)
+
+/-- branch condition: `maxSupply > 0` -/
+def EditToken_cond_2 (maxSupply : Nat) : Option (Bool) := do
+  some (decide (maxSupply > (0 : Nat)))
+
+/-- rejects when true: `sdkmath.NewIntFromUint64(maxSupply).Mul(precision).LT(issuedAmt)` -/
+def EditToken_guard_3 (maxSupply : Nat) (precision : Int) (issuedAmt : Int) : Option (Bool) := do
+  let t1 ← Int_Mul (NewIntFromUint64 (maxSupply : Int)) precision
+  some (Int_LT t1 issuedAmt)
+
+/-- branch condition: `name != v1.DoNotModify` -/
+def EditToken_cond_4 (name : String) : Option (Bool) := do
+  some (name != "[do-not-modify]")
+
+/-- branch condition: `exist` -/
+def EditToken_cond_5 (exist : Bool) : Option (Bool) := do
+  some exist
+
+/-- branch condition: `mintable != types.Nil` -/
+def EditToken_cond_6 (mintable : String) : Option (Bool) := do
+  some (mintable != "")
+
 def GetTokenMintFee_mintFee_1 (fee : Coin) (params_MintTokenFeeRatio : Dec) : Option (Int) := do
   let t1 ← Dec_Mul (LegacyNewDecFromInt fee.amount) params_MintTokenFeeRatio
   let t2 ← Dec_TruncateInt t1
@@ -47,6 +88,6 @@ def calcFeeByBase_actualFee_1 (baseFee : Int) (feeFactor : Dec) : Option (Dec) :
 def untranslated : List String := []
 
 /-- names of the translated definitions -/
-def translated : List String := ["MintToken_precision_1(token_Scale)", "MintToken_mintableAmt_1(token_MaxSupply,precision,supply)", "MintToken_guard_1(read_owner_String,token_Owner)", "MintToken_guard_2(token_Mintable)", "MintToken_guard_3(coinMinted,mintableAmt)", "MintToken_cond_4(read_recipient_Empty)", "GetTokenMintFee_mintFee_1(fee,params_MintTokenFeeRatio)", "feeHandler_communityTaxCoin_1(fee,tokenTaxRate)", "calcFeeByBase_actualFee_1(baseFee,feeFactor)"]
+def translated : List String := ["MintToken_precision_1(token_Scale)", "MintToken_mintableAmt_1(token_MaxSupply,precision,supply)", "MintToken_guard_1(read_owner_String,token_Owner)", "MintToken_guard_2(token_Mintable)", "MintToken_guard_3(coinMinted,mintableAmt)", "MintToken_cond_4(read_recipient_Empty)", "EditToken_issuedAmt_1(read_k_getTokenSupply_ctx_token_MinUnit)", "EditToken_precision_1(token_Scale)", "EditToken_token_MaxSupply_1(maxSupply)", "EditToken_token_Name_1(name)", "EditToken_token_Mintable_1(read_mintable_ToBool)", "EditToken_guard_1(read_owner_String,token_Owner)", "EditToken_cond_2(maxSupply)", "EditToken_guard_3(maxSupply,precision,issuedAmt)", "EditToken_cond_4(name)", "EditToken_cond_5(exist)", "EditToken_cond_6(mintable)", "GetTokenMintFee_mintFee_1(fee,params_MintTokenFeeRatio)", "feeHandler_communityTaxCoin_1(fee,tokenTaxRate)", "calcFeeByBase_actualFee_1(baseFee,feeFactor)"]
 
 end Irismod.Gen.PureTokenFee
